@@ -167,14 +167,28 @@ fn build(rng: &mut Rng, hist: &str, fe: Fe, class: Option<NoiseClass>, with_cut:
         l.segs.push(Seg::Noise(Hx(g)));
         l.knobs.insert("noise_class".into(), NOISE_CLASSES.iter().position(|x| *x == c).unwrap() as i64);
     }
+    let mut tight: Option<usize> = None;
     if with_cut {
         let limit = max_payload.map(|m| m as usize).unwrap_or(40);
-        let p = gen::gen_payload_upto(rng, limit.min(40));
-        let cuts = legal_cuts(&p);
-        let cut = *rng.pick(&cuts);
-        l.segs.push(Seg::Cut { payload: Hx(p), cut });
+        if max_payload.is_none() && fe != Fe::Decode && rng.chance(1, 5) {
+            // the sender crashed inside a transmission that would not have fitted the receiver's
+            // buffer, at a point where exactly N bytes are stored and 1-4 zeros are still withheld:
+            // nothing has overflowed yet, so the promise holds
+            let n = *rng.pick(&[0usize, 1, 2, 3, 4, 7, 8, 12, 16]);
+            let z = rng.range(1, 4);
+            let mut p: Vec<u8> = (0..n).map(|i| 0x61 + (i as u8 % 20)).collect();
+            p.extend(std::iter::repeat(0).take(z));
+            p.extend_from_slice(&[0x71, 0x72, 0x73]);
+            l.segs.push(Seg::Cut { payload: Hx(p), cut: 8 + n + z });
+            tight = Some(n);
+        } else {
+            let p = gen::gen_payload_upto(rng, limit.min(40));
+            let cuts = legal_cuts(&p);
+            let cut = *rng.pick(&cuts);
+            l.segs.push(Seg::Cut { payload: Hx(p), cut });
+        }
     }
-    let limit = max_payload.map(|m| m as usize).unwrap_or(usize::MAX);
+    let limit = max_payload.map(|m| m as usize).or(tight).unwrap_or(usize::MAX);
     let n = gen::payload_len(rng, tier, 600).min(limit);
     let m = gen::gen_payload_len(rng, n);
     l.segs.push(Seg::Frame {
@@ -182,6 +196,19 @@ fn build(rng: &mut Rng, hist: &str, fe: Fe, class: Option<NoiseClass>, with_cut:
         enc: gen::gen_enc(rng),
         faults: vec![],
     });
+    if let Some(n) = tight {
+        // capacity exactly the stored part of the cut-off transmission; histories whose segments
+        // need more room are not combined with this variant
+        let need_hist = l.segs[..idle_seg].iter().map(|s| match s {
+            Seg::Frame { payload, .. } | Seg::Cut { payload, .. } => payload.len(),
+            Seg::Raw(b) => b.len(),
+            _ => 0,
+        }).max().unwrap_or(0);
+        if need_hist <= n {
+            l.buf = BufKind::Arr(n);
+            l.knobs.insert("tight_cut".into(), 1);
+        }
+    }
     if l.buf == BufKind::Vec && fe != Fe::Decode {
         // buffer kind: any that holds every payload of the run
         let need = l
@@ -422,6 +449,9 @@ impl Prop for C08Prop {
         }
         if seen_cut {
             st.bump("probe", "cut");
+        }
+        if l.knob("tight_cut") == 1 {
+            st.bump("probe", "cut-with-withheld-zeros-at-capacity");
         }
         st.bump("cfg.fe", l.fe.name());
 
